@@ -107,3 +107,13 @@ package run
 //@   define   lockorc == orc
 //@   modifies everything
 //@   ensures result != nil
+
+// ==== compatibility of a new configuration (C17, C12) ============================================================================
+// After a reload the input side keeps the old allocator (reloader.go: newLoader.PipelineArgs.Deallocator = old), whose
+// reference count per record is the OLD number of outputs, while every record is released once per NEW output: a reload
+// may only be accepted if the number of outputs is unchanged. Functional-only unit (flag nosafety).
+//@ func checkConfigCompatibility(oldConf Config, oldSchema base.LogSchema, oldStats ConfigStats, newConf Config, newSchema base.LogSchema, newStats ConfigStats) error
+//@   property C17 C12
+//@   flag nosafety
+//@   modifies everything
+//@   ensures[compatible-configs-keep-the-number-of-outputs] result == nil ==> len(newConf.OutputBuffersPairs) == len(oldConf.OutputBuffersPairs)
